@@ -338,10 +338,11 @@ Refines == Disabled = {} => CircuitChecks(db) = NativeChecks(db)
 \* adequacy of the catalogue: every circuit check is the ONLY certain detector of some class (the consistency
 \* checks of the folding chain are always accompanied by the next link: there, a class it certainly detects)
 YesIds(a) == {NativeChecks(db)[i].id : i \in {j \in 1..Len(NativeChecks(db)) : Outcome(NativeSchedule(db), a, NativeChecks(db)[j]) = "yes"}}
+Group(id) == IF id \in {"Consistency" \o Digit(l) : l \in Ls} THEN {"Consistency" \o Digit(l) : l \in Ls} \cup {"Final"}
+             ELSE IF id \in VanIds /\ ~IsPlonk THEN VanIds      \* no single-index prover strategy for STARKs (hook H8)
+             ELSE {id}
 Adequate == \A id \in {NativeChecks(db)[i].id : i \in 1..Len(NativeChecks(db))} :
-              \E a \in Classes(db) : Exists(a, db) /\
-                 IF id \in {"Consistency" \o Digit(l) : l \in Ls} THEN id \in YesIds(a) /\ Cardinality(YesIds(a)) <= 2
-                 ELSE YesIds(a) = {id}
+              \E a \in Classes(db) : Exists(a, db) /\ id \in YesIds(a) /\ YesIds(a) \subseteq Group(id) /\ Cardinality(YesIds(a)) <= 2
 \* every class except the honest proof is rejected or position dependent
 OnlyHonestAccepted == Done /\ Disabled = {} => (nacc = "accept" <=> adv.name = "none")
 
